@@ -30,6 +30,23 @@ class _Rewrite(ast.NodeTransformer):
             return ast.copy_location(
                 ast.Call(func=ast.Name(id="sx_join_", ctx=ast.Load()), args=[f.value] + node.args, keywords=[]),
                 node)
+        if (isinstance(f, ast.Attribute) and f.attr in self._METHODS and not node.keywords
+                and not any(isinstance(a, ast.Starred) for a in node.args)):
+            # a plain str/bytes receiver cannot take proxy arguments: dispatch through a helper that lifts the receiver
+            return ast.copy_location(
+                ast.Call(func=ast.Name(id="sx_m_", ctx=ast.Load()), args=[f.value, ast.Constant(value=f.attr)] + node.args, keywords=[]),
+                node)
+        return node
+
+    _METHODS = {"startswith", "endswith", "find", "index", "count", "split", "replace", "partition", "strip", "lstrip", "rstrip", "join"}
+
+    def visit_Compare(self, node):
+        self.generic_visit(node)
+        if len(node.ops) == 1 and isinstance(node.ops[0], (ast.In, ast.NotIn)):
+            call = ast.Call(func=ast.Name(id="sx_in_", ctx=ast.Load()), args=[node.left, node.comparators[0]], keywords=[])
+            if isinstance(node.ops[0], ast.NotIn):
+                call = ast.UnaryOp(op=ast.Not(), operand=call)
+            return ast.copy_location(call, node)
         return node
 
     def visit_JoinedStr(self, node):
@@ -87,6 +104,8 @@ class Loader(importlib.machinery.SourceFileLoader):
         g["sx_join_"] = strs.join_shim
         g["sx_fmt_"] = strs.fmt_shim
         g["sx_seen_"] = seen_shim
+        g["sx_in_"] = strs.in_shim
+        g["sx_m_"] = strs.method_shim
         super().exec_module(module)
         install(module)
 
@@ -138,6 +157,8 @@ SHIM_LIST = [
     "_utils._UTF8D -> same numbers, symbolic index through an ITE mux tree",
     "bytes.join / str.join on literals and f-strings -> proxy-aware concatenation (AST rewrite)",
     "every except-handler first re-raises engine control exceptions (AST rewrite)",
+    "`x in y` / `x not in y` and str/bytes method calls (startswith, endswith, find, split, replace, ...) dispatch through helpers that lift a "
+    "concrete receiver when an argument is a proxy (AST rewrite; identical to the native operation when no proxy is involved)",
 ]
 
 _active = False
